@@ -11,7 +11,7 @@ from autobean_refactor.models.internal.repeated import Repeated
 CASES = {'quick': 1500, 'thorough': 40000}
 GATES = {
     'quick': {'evaluations': 40000, 'copies_checked': 30000, 'independence_checks': 2500, 'edits_on_copy_changing_it': 1500,
-              'edits_on_original_changing_it': 1500, 'copies_after_claim_history': 5000, 'copied_classes': 30, 'copies_with_claimed_comment': 2000, 'container_copies': 2000,
+              'edits_on_original_changing_it': 1500, 'copies_after_claim_history': 5000, 'copied_classes': 30, 'copies_with_claimed_comment': 2000, 'container_copies': 2000, 'arithmetic_steps_before_copy': 150,
               'models_with_custom_indent_by': 200, 'value_state_copies': 3000, 'plain_fields_compared': 100000},
     'thorough': {'evaluations': 1000000, 'copied_classes': 33},
 }
@@ -155,6 +155,23 @@ def run_case(col, r, idx):
                     hist.append(op.desc + ' -> refused')
             if walker.check_tree(f):
                 col.skip('original tree invalid after the claim history (C05/C19 decide that)')
+                return
+        if idx % 3 == 2 and r.random() < 0.6:
+            # in-place arithmetic on expressions of the document before anything is copied: the operators rebuild the expression nodes
+            mg = ops.MiscGenerator(r)
+            for _ in range(r.randint(1, 3)):
+                op = mg.arith_op(f)
+                if op is None:
+                    break
+                try:
+                    op.apply()
+                    hist.append(op.desc)
+                    col.count('arithmetic_steps_before_copy')
+                except (ValueError, ArithmeticError):
+                    hist.append(op.desc + ' -> raised')
+                    break
+            if walker.check_tree(f):
+                col.skip('original tree invalid after the arithmetic history (C05/C13 decide that)')
                 return
         if idx % 3 == 1:
             # entries and postings with their own indent_by (docs/special/indents.md: assignable at any time)
